@@ -26,6 +26,7 @@ from lib import vf
 
 SEC = 10**9
 TOL = int(0.7 * SEC)       # tolerance on exit time (given in the design: Go's Shutdown polls up to every 500 ms)
+PROMPT_TOL = int(1.2 * SEC)   # two Shutdown poll intervals (2 x 550 ms) + slack, counted from the last completion the client observed
 MARGIN = int(0.2 * SEC)    # distance from a boundary below which the monitor makes no claim
 LATE = int(0.1 * SEC)      # a scenario in which the DRIVER issued a request or sent a signal more than this long after the planned
 #                            instant was not realised as planned (machine overloaded): it is set aside (counted), not judged
@@ -116,12 +117,15 @@ def compare(ctx, rows, name):
             why.append("completed flags")
         if r["code"] != r["m_code"]:
             why.append("exit status")
-        if abs(r["exit"] - r["m_exit"]) > TOL:
+        # the exit instant: within TOL of the model's - or, for a SUCCESSFUL exit, up to one further Shutdown poll interval later
+        # (a poll that runs before the server has marked the last connection idle is lost; the next one comes 500-550 ms later)
+        late_ok = TOL + (int(0.55 * SEC) if r["code"] == 0 and r["m_code"] == 0 else 0)
+        if not (-TOL <= r["exit"] - r["m_exit"] <= late_ok):
             why.append("exit time differs by %.2f s" % ((r["exit"] - r["m_exit"]) / SEC))
         if why:
             mism.append({"index": i, "input": r["input"], "impl": r["impl"], "model": r["model"], "why": why})
     rec = {"name": name, "cases": len(rows), "mismatches": len(mism), "either_scenarios": len(either),
-           "note": "flags and exit status exact; exit time within %.1f s; either_scenarios = scenarios not robust against timing noise "
+           "note": "flags and exit status exact; exit time within %.1f s (a successful exit may be one further poll interval late); either_scenarios = scenarios not robust against timing noise "
                    "(sd_robust = false), for which either outcome is accepted" % (TOL / SEC)}
     ctx.extra["either_scenarios"] = len(either)
     ctx.extra["scenarios_set_aside_because_the_driver_missed_its_schedule"] = len(missed)
@@ -220,8 +224,13 @@ def monitor(ctx, rows, notes):
                               "drained-but-killed-by-signal" if r["code"] < 0 else "drained-but-exit-status-other",
                               "every accepted request completed (the last at %.2f s, graceful period %.2f s) but the process did not exit successfully: %s at %.2f s%s"
                               % (last / SEC, G / SEC, status_text(r["code"]), r["exit"] / SEC, more), case)
-            if r["exit"] > last + TOL:
-                ctx.violation("exit-not-prompt", "everything completed at %.2f s but the process exited at %.2f s" % (last / SEC, r["exit"] / SEC), case)
+            # "as soon as": http.Server.Shutdown notices idleness only at its next poll (every 500 ms + up to 10 % jitter), and the server
+            # marks a connection idle / closed a little after the client has seen the last byte - under load that can cost the next poll.
+            # So: no later than two poll intervals after the last completion AS OBSERVED by the client.
+            seen = [e for e, acc, comp in zip(r["ends"], r["acc"], r["comp"]) if acc and comp]
+            last_seen = max([last] + seen)
+            if r["exit"] > last_seen + PROMPT_TOL:
+                ctx.violation("exit-not-prompt", "everything completed at %.2f s (observed: %.2f s) but the process exited at %.2f s" % (last / SEC, last_seen / SEC, r["exit"] / SEC), case)
             if r["exit"] < last - MARGIN:
                 ctx.violation("exit-before-drained", "the process exited before the last accepted request completed", case)
     return len(sig)
